@@ -22,6 +22,7 @@ static H_INFO: [AtomicUsize; TAB] = [A0; TAB];
 static H_CTX: [AtomicUsize; TAB] = [A0; TAB];
 static A_INFO: [AtomicUsize; TAB] = [A0; TAB];
 static H_BAD: AtomicU64 = AtomicU64::new(0);
+static NO_INFO: AtomicU64 = AtomicU64::new(0);
 static START_SENDING: AtomicBool = AtomicBool::new(false);
 
 extern "C" fn h_siginfo(sig: c_int, info: *mut siginfo_t, ctx: *mut c_void) {
@@ -31,6 +32,10 @@ extern "C" fn h_siginfo(sig: c_int, info: *mut siginfo_t, ctx: *mut c_void) {
         H_BAD.fetch_add(1, Ordering::SeqCst);
         evlog::log(kind::PREV, sig as u64, u64::MAX - 2);
         return;
+    }
+    if unsafe { (*info).si_code } != libc::SI_QUEUE {
+        // every send is a sigqueue: the kernel dropped the siginfo (pending-signal quota of the user exhausted)
+        NO_INFO.fetch_add(1, Ordering::SeqCst);
     }
     let seq = crate::sig::si_value(unsafe { &*info }) as u64;
     H_INFO[(seq as usize) % TAB].store(info as usize, Ordering::SeqCst);
@@ -175,6 +180,9 @@ fn child(t: &Trial, fd: i32) -> i32 {
     let tags = Arc::new(AtomicU64::new(0));
     let mk_action = |tag: u64| {
         move |info: &siginfo_t| {
+            if info.si_code != libc::SI_QUEUE {
+                NO_INFO.fetch_add(1, Ordering::SeqCst);
+            }
             let seq = crate::sig::si_value(info) as u64;
             if tag == 1 {
                 A_INFO[(seq as usize) % TAB].store(info as *const siginfo_t as usize, Ordering::SeqCst);
@@ -374,6 +382,10 @@ fn child(t: &Trial, fd: i32) -> i32 {
         bad.push(format!("the other signal's own previous handler ran {} times for one delivery", other_prev));
     }
     let _ = ignored_before_switch;
+    if NO_INFO.load(Ordering::SeqCst) > 0 {
+        wr(fd, &format!("ENVIRONMENT {} deliveries without queued siginfo (RLIMIT_SIGPENDING exhausted by another process)\n", NO_INFO.load(Ordering::SeqCst)));
+        bad.clear();
+    }
     for b in bad.iter().take(6) {
         wr(fd, &format!("BAD {}\n", b));
     }
@@ -449,6 +461,10 @@ pub fn main(args: &[String]) -> i32 {
                     bad.push(("chain-trial-died".into(), format!("{}: the process ended with {:?} (a default/ignore disposition called as a function, or a handler called with the wrong arguments?)", label, other)));
                     continue;
                 }
+            }
+            if res.out.contains("ENVIRONMENT ") {
+                inconclusive = Some(format!("environment: {}", res.out.lines().find(|l| l.starts_with("ENVIRONMENT")).unwrap_or("")));
+                continue;
             }
             for l in res.out.lines().filter(|l| l.starts_with("BAD ")) {
                 let s = if l.contains("did not run") || l.contains("ran 0 times") || l.contains("ran the previous handler 0") { "prev-not-called" }
